@@ -97,7 +97,11 @@ func (b *Block) ToBytes() []byte {
 	var viewBuf [8]byte
 	binary.LittleEndian.PutUint64(viewBuf[:], uint64(b.view))
 	buf = append(buf, viewBuf[:]...)
-	buf = append(buf, b.batch.Marshal()...) // may panic
+	// The command batch has no fixed length and the certificate follows it: without its length the same
+	// bytes, and so the same hash, also belong to a block with more commands and a shorter certificate.
+	batch := b.batch.Marshal() // may panic
+	buf = binary.LittleEndian.AppendUint64(buf, uint64(len(batch)))
+	buf = append(buf, batch...)
 	buf = append(buf, b.cert.ToBytes()...)
 	var tsBuf [8]byte
 	binary.LittleEndian.PutUint64(tsBuf[:], uint64(b.ts.UnixNano()))
